@@ -100,8 +100,15 @@ pub enum Class {
     TypeLevel,
     /// the raw parser rejects the text: the iterator ends
     Syntax,
-    /// the statement does not say (alias of an anchor of an earlier document)
+    /// a complete document (this value) followed, on the next line, by text that is neither part of it nor a
+    /// document start: the value is a document of the stream, the rest a syntax error of the stream
+    OkThenSyntax(String),
+    /// alias of an anchor that an earlier document defines: the parser accepts it, the library reports an
+    /// unknown anchor for this document and goes on
     Either,
+    /// alias of an anchor defined nowhere: must fail; the parser reports it where it meets it, which ends the
+    /// stream when that happens while a failed document is being skipped and not otherwise (not prescribed)
+    UndefinedAlias,
 }
 
 /// Independent look at one document through the raw parser: (scan error?, null-like root?)
@@ -170,14 +177,25 @@ fn alone_text(d: &DocSpec) -> String {
     }
 }
 
-pub fn classify(target: Target, d: &DocSpec, opts: &OptVec) -> Class {
+/// `anchor_known_to_parser`: an earlier document of the stream defines the anchor this document aliases.
+/// The parser (whose anchor names last for the stream) then accepts the alias and the library, whose anchors
+/// end with their document, reports an unknown anchor for this document only. Without such a definition the
+/// parser itself rejects the alias: a syntax error like any other.
+pub fn classify(target: Target, d: &DocSpec, opts: &OptVec, anchor_known_to_parser: bool) -> Class {
     if d.alias_of_earlier {
-        return Class::Either;
+        return if anchor_known_to_parser { Class::Either } else { Class::UndefinedAlias };
     }
     let text = alone_text(d);
     let d = &DocSpec { text, ..d.clone() };
     let (scan_err, skipped) = raw_shape(&d.text);
     if scan_err {
+        if d.kind.starts_with("ok-then-stray") {
+            // the first line is the complete document
+            let first = d.text.split_inclusive('\n').next().unwrap_or("").to_string();
+            if let Outcome::Ok(v) = crate::with_target!(target, alone(&first, opts)) {
+                return Class::OkThenSyntax(v);
+            }
+        }
         return Class::Syntax;
     }
     if skipped {
@@ -385,7 +403,12 @@ pub fn exec(c: &StreamCase, st: &mut Stats) -> Vec<Viol> {
             ..c.clone()
         }),
     };
-    let classes: Vec<Class> = c.docs.iter().map(|d| classify(c.target, d, &c.opts)).collect();
+    let classes: Vec<Class> = c
+        .docs
+        .iter()
+        .enumerate()
+        .map(|(i, d)| classify(c.target, d, &c.opts, c.docs[..i].iter().any(|e| e.text.contains("&x"))))
+        .collect();
     for cl in &classes {
         st.bump(&format!(
             "class.{}",
@@ -394,7 +417,9 @@ pub fn exec(c: &StreamCase, st: &mut Stats) -> Vec<Viol> {
                 Class::Ok(_) => "ok",
                 Class::TypeLevel => "type_level_error",
                 Class::Syntax => "syntax_error",
+                Class::OkThenSyntax(_) => "document_then_stray_text",
                 Class::Either => "alias_of_earlier_document",
+                Class::UndefinedAlias => "alias_of_undefined_anchor",
             }
         ));
     }
@@ -408,14 +433,16 @@ pub fn exec(c: &StreamCase, st: &mut Stats) -> Vec<Viol> {
                 Class::Ok(_) => "ok",
                 Class::TypeLevel => "type",
                 Class::Syntax => "syntax",
+                Class::OkThenSyntax(_) => "ok+stray",
                 Class::Either => "alias-earlier",
+                Class::UndefinedAlias => "alias-undefined",
             }))
             .collect::<Vec<_>>()
             .join(" | ")
     };
 
     // ---- batch ----
-    let first_bad = classes.iter().position(|c| matches!(c, Class::TypeLevel | Class::Syntax | Class::Either));
+    let first_bad = classes.iter().position(|c| matches!(c, Class::TypeLevel | Class::Syntax | Class::Either | Class::UndefinedAlias | Class::OkThenSyntax(_)));
     for slice in [false, true] {
         let b = crate::with_target!(c.target, run_batch(bytes, &c.opts, slice));
         st.evals += 1;
@@ -482,6 +509,20 @@ pub fn exec(c: &StreamCase, st: &mut Stats) -> Vec<Viol> {
     });
     if tolerated_garbage {
         st.bump("single_entry.not_asserted_garbage_after_end_marker");
+    }
+    if let Some(Class::OkThenSyntax(v)) = classes.iter().find(|c| !matches!(c, Class::Skipped)) {
+        // stray text behind a document that ended implicitly is a syntax error, not ignorable garbage
+        for e in [Entry::FromStr, Entry::FromReader, Entry::WdStr, Entry::WdReader] {
+            let r = crate::with_target!(c.target, run_single(e, bytes, &c.opts, &ReaderScript::default()));
+            st.evals += 1;
+            if let Outcome::Ok(x) = &r.outcome {
+                out.push(mk(
+                    "single-entry-ignores-stray-text",
+                    format!("[{}] {e:?} returns Ok({x}) although text that is no document start follows the document ({v})", describe()),
+                    None,
+                ));
+            }
+        }
     }
     if content_idx.len() >= 2 && !tolerated_garbage {
         for e in [Entry::FromStr, Entry::FromReader, Entry::WdStr, Entry::WdReader] {
@@ -572,7 +613,8 @@ pub fn exec(c: &StreamCase, st: &mut Stats) -> Vec<Viol> {
             if !r.none_is_sticky {
                 out.push(mk("iterator-resumes-after-none", format!("[{}] {name}: an item after None", describe()), Some(ch)));
             }
-            if r.items.len() > content_docs {
+            let stray = classes.iter().filter(|c| matches!(c, Class::OkThenSyntax(_))).count();
+            if r.items.len() > content_docs + stray {
                 out.push(mk(
                     "iterator-more-items-than-documents",
                     format!("[{}] {name}: {} items for {content_docs} content documents: {:?}", describe(), r.items.len(), r.items.iter().map(|o| o.short()).collect::<Vec<_>>()),
@@ -583,7 +625,7 @@ pub fn exec(c: &StreamCase, st: &mut Stats) -> Vec<Viol> {
             // walk the model
             let mut k = 0usize; // next item
             let mut problem: Option<String> = None;
-            let mut ended = false; // the model says the iterator may have ended here
+            let ended = false; // (no document class lets the iterator end early any more)
             for (i, cl) in classes.iter().enumerate() {
                 match cl {
                     Class::Skipped => {}
@@ -613,6 +655,24 @@ pub fn exec(c: &StreamCase, st: &mut Stats) -> Vec<Viol> {
                             break;
                         }
                     },
+                    Class::OkThenSyntax(v) => {
+                        match (r.items.get(k), r.items.get(k + 1)) {
+                            (Some(Outcome::Ok(x)), Some(Outcome::Err(_))) if x == v => {
+                                if r.items.len() > k + 2 {
+                                    problem = Some(format!("document {i} is followed by stray text, yet the iterator yields {} more items", r.items.len() - k - 2));
+                                }
+                            }
+                            (a, b) => {
+                                problem = Some(format!(
+                                    "document {i} is ok:{v} followed by stray text (a syntax error of the stream): expected that value and then an error, got {:?} and {:?}",
+                                    a.map(|o| o.short()),
+                                    b.map(|o| o.short())
+                                ))
+                            }
+                        }
+                        k = r.items.len();
+                        break;
+                    }
                     Class::Syntax => {
                         match r.items.get(k) {
                             Some(Outcome::Err(_)) => {
@@ -634,13 +694,28 @@ pub fn exec(c: &StreamCase, st: &mut Stats) -> Vec<Viol> {
                         k = r.items.len();
                         break;
                     }
-                    Class::Either => match r.items.get(k) {
+                    Class::UndefinedAlias => match r.items.get(k) {
                         Some(Outcome::Err(_)) => {
                             k += 1;
                             if r.items.len() == k {
-                                ended = true; // allowed to stop here
+                                // allowed to stop here
+                                k = r.items.len();
+                                break;
                             }
                         }
+                        Some(other) => {
+                            problem = Some(format!("document {i} aliases an anchor defined nowhere and must fail, the iterator's item {k} is {}", other.short()));
+                            break;
+                        }
+                        None => {
+                            problem = Some(format!("document {i} (alias of an undefined anchor) produced no error item"));
+                            break;
+                        }
+                    },
+                    Class::Either => match r.items.get(k) {
+                        // (an unknown anchor fails its document like any other node-level error - also when the
+                        // alias is the root node - and the iterator goes on with the next document)
+                        Some(Outcome::Err(_)) => k += 1,
                         Some(other) => {
                             problem = Some(format!(
                                 "document {i} aliases an anchor of an earlier document and must fail, the iterator's item {k} is {}",
@@ -764,6 +839,14 @@ pub fn kinds_for(target: Target) -> Vec<DocSpec> {
             d("type-late", "S: {a: 1, b: [x]}\n"),
             d("surplus", "T: [1, one, extra]\n"),
             d("anchor-then-type-error", "T: [&x 5, [not, a, string]]\n"),
+            // a variant with a payload named by a bare scalar: the payload is not in this document (and must
+            // not be taken from the next one, which may look exactly like it)
+            d("bare-newtype-variant", "N\n"),
+            d("bare-tuple-variant", "T\n"),
+            d("bare-struct-variant", "S\n"),
+            d("payload-looking-int", "5\n"),
+            d("payload-looking-seq", "[1, one]\n"),
+            d("payload-looking-map", "{a: 1, b: x}\n"),
         ],
         Target::Str => vec![
             d("valid-a", "plain text\n"),
@@ -800,6 +883,10 @@ pub fn kinds_for(target: Target) -> Vec<DocSpec> {
             d("tag-handle-undeclared", "v: !e!x 2\n"),
             DocSpec { directives: "%TAG !! tag:example.com,2000:\n".into(), ..d("secondary-handle-redefined", "v: !!str 3\n") },
             d("secondary-tag-str", "v: !!str 4\n"),
+            // a root that ends before a stray line: the document has ended implicitly, what follows is not a
+            // document start
+            d("ok-then-stray-flow", "{a: 1}\nb: 2\n"),
+            d("ok-then-stray-quoted", "\"abc\"\ndef\n"),
         ],
     };
     v.extend(specific);
